@@ -1777,7 +1777,9 @@ func TestVerifC03(t *testing.T) {
 		"then the sized family (payload data of a unary and of three full-duplex responses, error message, two error details, echoed request, each " +
 		"255/256/257, 1023/1024/1025, 4095/4096/4097, 65535/65536/65537 bytes long; deviations at the first, middle and last byte and one byte dropped / appended at the end); " +
 		"the size-limit expectations come last and, in the quick tier, get only the identity and (unary, full-duplex) the payload / echoed-request deviations. " +
-		"distinct_nontrivial counts (E, kind, position, variant) tuples whose rewritten actual result differs (proto.Equal) from E; identity pairs are evaluated but not counted."
+		"code routes: every E with an error again under other_allowed_error_codes lists of 1 and 3 (thorough: 1, 2, 3) alternatives and its own list, the result reporting the primary code / each alternative, x every leniency rewrite and deviation (the 200 KB expectations in the thorough tier only). " +
+		"two-call histories (run first): every ordered pair of comparisons (place: response header, trailer, echoed request header, echoed query parameter) x (expected value list, reported value list) over 10 (thorough 16) value-list shapes with commas, edge blanks, empty and zero values, tokens shared inside a history and never reused; the second verdict must equal the fresh-state verdict. " +
+		"distinct_nontrivial counts (E, code route, kind, position, variant) tuples whose rewritten actual result differs (proto.Equal) from E, and histories; identity pairs are evaluated but not counted."
 
 	startAll := time.Now()
 	var replay *c03Replay
